@@ -33,19 +33,20 @@ def _endpoint_ok(p, ep, from_server, out_sport=None):
 
 def evaluate_tls(spec):
     b = scenario.build(spec)
-    o = oracle.run_e2e(b, engine.workdir())
+    o = oracle.run_e2e(b, engine.workdir(), opts=spec.get("opts"))
     cs, conn = spec["conns"][0], b.conns[0]
     ep = cs["ep"]
+    out = spec.get("out_sport")       # exported server port when the case uses -m (None: the original one); C10 judges the mapping itself
     sig = oracle.base_failure(o)
     detail = (o.run.exc or "")[-300:] if sig else ""
     spans = scenario.record_spans(conn)
     multi = False
     strong = True
     if sig is None:
-        s0, d0 = oracle.tls_flow_check(o, conn, ep)
+        s0, d0 = oracle.tls_flow_check(o, conn, ep, out)
         if s0:
             return {"sig": "content (C01): " + s0, "detail": d0, "nontrivial": False}
-        key, c, s = oracle.ep_key(ep, 6)
+        key, c, s = oracle.ep_key(ep, 6, out)
         pk = o.flows.get(key)
         if pk:
             stt = oracle.tcp_streams(pk)
@@ -70,9 +71,10 @@ def evaluate_tls(spec):
             first_data_ts = None
             first_rec_times = set()
             part_idx = {}
-            for p in pk[3:]:
-                from_server = (p.sip, p.sport) == s
-                bad = _endpoint_ok(p, ep, from_server)
+            for pi, p in enumerate(pk):
+                # the synthetic handshake goes client -> server -> client; every other packet is judged by its own source address
+                from_server = (pi == 1) if pi < 3 else (p.sip, p.sport) == s
+                bad = _endpoint_ok(p, ep, from_server, out)
                 if bad:
                     sig, detail = f"tls: exported packet has the wrong {bad}", repr(p)
                     break
@@ -110,12 +112,13 @@ def evaluate_tls(spec):
                         break
                 if sig is None:
                     for h, frm in zip(stt["hs"], (False, True, False)):
-                        bad = _endpoint_ok(h, ep, frm)
+                        bad = _endpoint_ok(h, ep, frm, out)
                         if bad:
                             sig, detail = f"tls: synthetic handshake packet has the wrong {bad}", repr(h)
                             break
     both = bool(conn.truth[False]) and bool(conn.truth[True])
-    labels = ["tls", "v6" if ep["v6"] else "v4", "ith-part-ith-packet" if strong else "membership-only"]
+    labels = ["tls", "v6" if ep["v6"] else "v4", "ith-part-ith-packet" if strong else "membership-only",
+              "-m:" + ("absent" if out is None else "bare" if out == 8080 and not spec["opts"]["m"] else "target-is-the-client-port")]
     return {"sig": sig, "detail": detail, "nontrivial": multi and both, "labels": labels}
 
 
@@ -210,8 +213,18 @@ def _quic_grid():
 
 def tls_strategy(tier):
     deliv = strategies.tcp_delivery(modes=("cuts", "cuts", "flight", "rec"), dups=True, moves=True)
-    return strategies.single_tls_scenario(max_records=8, max_len=800 if tier == "quick" else 4000, delivery=deliv).map(
-        lambda sc: dict(sc, tseed=1 + sc["tseed"]))
+    def with_map(sc, mode):
+        # a fifth of the cases run with -m: bare (server port exported as 8080) or with a pair whose target is the connection's own
+        # client port, so that both ends of the exported conversation use the same port number
+        sc = dict(sc, tseed=1 + sc["tseed"])
+        ep = sc["conns"][0]["ep"]
+        if mode == 1:
+            sc.update(opts={"m": []}, out_sport=8080)
+        elif mode == 2:
+            sc.update(opts={"m": ["%d:%d" % (ep["sport"], ep["cport"])]}, out_sport=ep["cport"])
+        return sc
+    return st.builds(with_map, strategies.single_tls_scenario(max_records=8, max_len=800 if tier == "quick" else 4000, delivery=deliv),
+                     st.sampled_from([0, 0, 0, 0, 0, 0, 0, 1, 2, 2]))
 
 
 def stages(tier):
